@@ -334,6 +334,18 @@ Both peers cache `e` (P outgoing, Q incoming) and negotiate a further connection
 `e` dies, and P's close-watcher reaps it BEFORE P's end decides. The code as it is decides on the snapshot: it closes
 `c` and returns the (dead) cached connection; both caches end empty. -/
 
+/-- **cached_connection_death_keeps_agreement.** The instance of `no_split_brain` and
+`cache_new_only_if_peer_does` for the death of the pre-existing connection: whenever `e` dies - before, between or
+after the snapshots (cache-status reports) and the decisions of one dial or of two simultaneous dials - and whenever
+its close-watchers reap it at either side, in every final state the peers do not cache different connections and
+neither peer caches a new connection that the other one does not cache. -/
+theorem cached_connection_death_keeps_agreement (dual : Bool) (pre : Entry × Entry) (hp : pre ∈ preStates)
+    (l : List Step) (hf : final (run genTable (init dual pre (false, false) true) l) = true) :
+    noSplitBrain (run genTable (init dual pre (false, false) true) l) = true ∧
+      newOnlyIfPeer (run genTable (init dual pre (false, false) true) l) = true :=
+  ⟨no_split_brain dual pre hp ((false, false), true) (by decide) l hf,
+   cache_new_only_if_peer_does dual pre hp ((false, false), true) (by decide) l hf⟩
+
 def diesInTheWindow : List Step :=
   [.snap .Pc, .snap .Qc, .kill, .reapE .P, .dec .Pc, .dec .Qc, .reapE .Q]
 
